@@ -23,7 +23,9 @@ ASSUMPTIONS = ['cooccurence/haralick: pixel values are non-negative integers (th
                'histograms (2^P bins are enumerated by the implementation), P <= 32 for the code mapping; LBP sampling '
                '(interpolate.shift) is not part of this check, only the mapping/histogram',
                'zernike: centre given with dyadic coordinates (exact rotation of the coordinate grid); tolerance 1e-9 '
-               'relative to max(1, |z|); with the default centre of mass only power-of-two intensity scalings are used',
+               'relative to max(1, |z|); with the default centre of mass only power-of-two intensity scalings are used; '
+               'the Lean Float model of the kernel (znlG) and of zernike_moments (zernikeAbs) is compared with the real '
+               '_zernike.znl / zernike_moments at 1e-9 (pow is libm on both sides, np.sum is pairwise), the selection mask exactly',
                'moments: natural-number powers; integer images and centres compared with the exact integer sum at 1e-12 '
                'relative to the sum of absolute terms',
                'integral: integer dtypes wrap modulo 2^bits (C semantics); float images with integer values below 2^53 exactly, '
